@@ -44,6 +44,10 @@ Theorem C12_gtx_l1Norm : P_C12_d.l1Norm_ok. Proof. exact P_C12_d.l1Norm_def. Qed
 Theorem C12_gtx_l1Norm_of_difference : P_C12_d.l1Norm2_ok. Proof. exact P_C12_d.l1Norm2_def. Qed.
 Theorem C12_gtx_l2Norm : P_C12_d.l2Norm_ok. Proof. exact P_C12_d.l2Norm_def. Qed.
 Theorem C12_gtx_l2Norm_of_difference : P_C12_d.l2Norm2_ok. Proof. exact P_C12_d.l2Norm2_def. Qed.
+Theorem C12_gtx_lMaxNorm : P_C12_d.lMaxNorm_ok. Proof. exact P_C12_d.lMaxNorm_def. Qed.
+Theorem C12_gtx_lMaxNorm_of_difference : P_C12_d.lMaxNorm2_ok. Proof. exact P_C12_d.lMaxNorm2_def. Qed.
+Theorem C12_gtx_lxNorm : P_C12_d.lxNorm_ok. Proof. exact P_C12_d.lxNorm_def. Qed.
+Theorem C12_gtx_lxNorm_of_difference : P_C12_d.lxNorm2_ok. Proof. exact P_C12_d.lxNorm2_def. Qed.
 Theorem C12_gtx_triangleNormal_is_normalized_cross : P_C12_d.triangleNormal_ok. Proof. exact P_C12_d.triangleNormal_def. Qed.
 Theorem C12_gtx_orthonormalize_formula_and_orthogonality : P_C12_d.orthonormalize_ok. Proof. exact P_C12_d.orthonormalize_def. Qed.
 Theorem C12_gtx_closestPointOnLine_3 : P_C12_d.closest3_ok. Proof. exact P_C12_d.closest3_def. Qed.
